@@ -260,11 +260,12 @@ Theorem C11_serve_sequence_permutation : forall c reqs reqs',
 Proof. exact serve_sequence_permutation. Qed.
 Print Assumptions C11_serve_sequence_permutation.
 
-(* ---- Viewer, Charts section.  A chart is shown as present in the
-   configuration iff some configured COUNTER of the program belongs to it
-   (its collapsed name is <chart>:..., or it expands to the chart's name) ... *)
+(* ---- Viewer, Charts section (charts() after fix c8e437d).  A chart is shown
+   as present in the configuration iff some configured counter of the program
+   belongs to it (its collapsed name is <chart>:..., or it expands to the
+   chart's name) or a configured stack has its name ... *)
 Theorem C11_viewer_chart_active_listed : forall u prog name,
-  viewer_chart_active (new_config u) prog name = counter_chart_listedb u prog name.
+  viewer_chart_active (new_config u) prog name = chart_listedb u prog name.
 Proof. exact viewer_chart_active_listed. Qed.
 Print Assumptions C11_viewer_chart_active_listed.
 
@@ -278,21 +279,20 @@ Theorem C11_approved_counter_chart_active : forall u prog k,
 Proof. exact approved_counter_chart_active. Qed.
 Print Assumptions C11_approved_counter_chart_active.
 
-(* ... and the chart oracle reports on the model only the stack class below. *)
+(* ... nor any chart of an approved stack counter.  (Before c8e437d the
+   configured stacks were not consulted and such a chart was called "not
+   present in the telemetry config": finding 20, oracle class viewer-chart-stack.) *)
+Theorem C11_approved_stack_chart_active : forall u prog k,
+  is_stack k = true -> approved_stackb u prog k = true ->
+  viewer_chart_active (new_config u) prog (chart_name k) = true.
+Proof. exact approved_stack_chart_active. Qed.
+Print Assumptions C11_approved_stack_chart_active.
+
+(* The chart oracle reports nothing on the model. *)
 Theorem C11_viewer_chart_oracle_model : forall u files prog name, chart_prefix_ok u ->
-  forall cl, In cl (viewer_chart_check u files prog name (viewer_chart_active (new_config u) prog name)) ->
-  cl = AViewerChartStack /\ viewer_chart_active (new_config u) prog name = false /\
-  exists k, In k (chart_items files prog name) /\ is_stack k = true /\ approved_stackb u prog k = true.
+  viewer_chart_check u files prog name (viewer_chart_active (new_config u) prog name) = [].
 Proof. exact viewer_chart_check_model. Qed.
 Print Assumptions C11_viewer_chart_oracle_model.
-
-(* finding 20: charts never consult the configured stacks: the chart of an
-   approved stack counter, which the uploader sends, is called "not present in the telemetry config" *)
-Theorem C11_viewer_chart_stack_refuted :
-  exists u prog k, is_stack k = true /\ approved_stackb u prog k = true /\
-                   viewer_chart_active (new_config u) prog (chart_name k) = false.
-Proof. exact viewer_chart_stack_refuted. Qed.
-Print Assumptions C11_viewer_chart_stack_refuted.
 
 (* ---- Non-vacuity *)
 Definition ex_cfg : upload_cfg :=
